@@ -6,5 +6,5 @@ Import ListNotations.
 Definition case := RateLimitCorr.case.
 (* spec oracles on the implementation's own bits first, then model = implementation *)
 Definition check (c : case) : list (N * N) :=
-  bound_fail c ++ conform_fail c ++ isolate_fail c ++ mismatch c.
+  bound_fail c ++ within_fail c ++ isolate_fail c ++ cleanup_fail c ++ mismatch c.
 Definition run (cs : list case) : result := run_cases check cs.
